@@ -170,6 +170,92 @@ theorem zip3With_boundElem_all_inf (inf : K) (b : Bool) :
 
 end BoundLemmas
 
+/-! ### the pair of scaled bounds -/
+
+theorem zip3With_length_eq {α β γ δ : Type} (f : α → β → γ → δ) (n : Nat) :
+    ∀ (a : List α) (b : List β) (c : List γ), a.length = n → b.length = n → c.length = n →
+      (zip3With f a b c).length = n := by
+  induction n with
+  | zero =>
+    intro a b c ha hb hc
+    cases a with
+    | nil => simp [zip3With]
+    | cons _ _ => simp at ha
+  | succ k ih =>
+    intro a b c ha hb hc
+    match a, b, c, ha, hb, hc with
+    | x :: a, y :: b, z :: c, ha, hb, hc =>
+      simp only [zip3With, List.length_cons]
+      rw [ih a b c (by simpa using ha) (by simpa using hb) (by simpa using hc)]
+
+theorem zip3With_map_left {α α' β γ δ : Type} (f : α' → β → γ → δ) (g : α → α') :
+    ∀ (a : List α) (b : List β) (c : List γ),
+      zip3With f (a.map g) b c = zip3With (fun x y z => f (g x) y z) a b c
+  | [], _, _ => by simp [zip3With]
+  | _ :: _, [], _ => by simp [zip3With]
+  | _ :: _, _ :: _, [] => by simp [zip3With]
+  | x :: a, y :: b, z :: c => by simp [zip3With, zip3With_map_left f g a b c]
+
+theorem Sv.strict_bcast {v : Sv K} {n : Nat} {l : List K} (h : v.strict n = .ok l) :
+    v.bcast n = .ok l := by
+  cases v with
+  | scalar x => simpa [Sv.strict, Sv.bcast] using h
+  | array m =>
+    simp only [Sv.strict] at h
+    by_cases hm : m.length = n
+    · simp [hm] at h; subst h; simp [Sv.bcast, hm]
+    · simp [hm] at h
+
+section SwapLemmas
+variable [Neg K] [LE K] [DecidableLE K]
+
+theorem Sv.strict_any_false {p : K → Bool} {v : Sv K} {n : Nat} {l : List K}
+    (h : v.strict n = .ok l) (hp : v.any p = false) : ∀ s ∈ l, p s = false := by
+  cases v with
+  | scalar x =>
+    simp [Sv.strict] at h; subst h
+    intro s hs; rw [(List.mem_replicate.mp hs).2]; exact hp
+  | array m =>
+    simp only [Sv.strict] at h
+    by_cases hm : m.length = n
+    · simp [hm] at h; subst h
+      intro s hs
+      simp only [Sv.any, List.any_eq_false] at hp
+      simpa using hp s hs
+    · simp [hm] at h
+
+theorem zip3With_swap_id (inf : K) (g : K → Bool) :
+    ∀ (sl lo up : List K), (∀ s ∈ sl, g s = false) → sl.length = lo.length →
+      up.length = lo.length →
+      zip3With (fun s l u => (swapElem inf (g s) l u).1) sl lo up = lo ∧
+      zip3With (fun s l u => (swapElem inf (g s) l u).2) sl lo up = up
+  | [], [], [], _, _, _ => by simp [zip3With]
+  | [], _ :: _, _, _, h, _ => by simp at h
+  | _ :: _, [], _, _, h, _ => by simp at h
+  | [], [], _ :: _, _, _, h => by simp at h
+  | _ :: _, _ :: _, [], _, _, h => by simp at h
+  | s :: sl, l :: lo, u :: up, hg, h1, h2 => by
+    have ih := zip3With_swap_id inf g sl lo up (fun x hx => hg x (by simp [hx]))
+      (by simpa using h1) (by simpa using h2)
+    have hs : g s = false := hg s (by simp)
+    have e : swapElem inf false l u = (l, u) := by simp [swapElem]
+    simp only [zip3With, hs, e, ih.1, ih.2, and_self]
+
+end SwapLemmas
+
+section ScaleOrder
+variable [Field K] [LinearOrder K] [IsStrictOrderedRing K]
+
+theorem scale_le_pos (a s u v : K) (hs : 0 < s) : scaleElem a s u ≤ scaleElem a s v ↔ u ≤ v := by
+  unfold scaleElem
+  rw [mul_le_mul_iff_of_pos_right hs, add_le_add_iff_right]
+
+theorem scale_le_neg (a s u v : K) (hs : s < 0) : scaleElem a s u ≤ scaleElem a s v ↔ v ≤ u := by
+  unfold scaleElem
+  rw [mul_le_mul_right_of_neg hs, add_le_add_iff_right]
+
+end ScaleOrder
+
 /-! ### dot products over records -/
 
 /-- One design-variable element seen by the chain rule: Jacobian entry of the response row,
